@@ -36,7 +36,19 @@ def register(K):
     def fresh_since_entry(eng, st, x):
         """the object was allocated by this call (so nothing that existed before can alias it)"""
         base = eng.old_state.alloc_ptr() if eng.old_state is not None else st.alloc_ptr()
+        if x.k == "iter":
+            x = eng.materialize(x, st)
         return vbool(eng.as_ref(x, st) >= base)
+
+    @K.spec("yielded")
+    def yielded(eng, st):
+        """ghost: the values the generator under verification has yielded so far"""
+        return V("gen", st.yielded if st.yielded is not None else z3.Empty(SeqV), elem=getattr(eng.cur_contract, "yields", None))
+
+    @K.spec("is_data")
+    def is_data(eng, st, x):
+        """a pickletools-decoded opcode argument: a number, string, bytes, bool or None — never an object reference"""
+        return vbool(z3.Not(Val.is_R(x.t)) if x.k == "val" else z3.BoolVal(x.k not in ("ref",)))
 
     @K.spec("rev")
     def rev(eng, st, x):
